@@ -1931,6 +1931,31 @@ class Exec:
             return R(UNIT)
         if re.search(r'(^|::)from_utf8_unchecked$', c):
             return R(args[0])
+        if re.match(r'Formatter::<.*>::pad$', c):
+            # core: the string truncated to the precision (if any), then padded with the fill character up to the width (if any)
+            sl = args[1]
+            if isinstance(sl, ArrRef):
+                sl = Slice(sl.arr, bv(0), sl.arr.len)
+            ln = sl.end - sl.start
+            outs = []
+            base = []
+            if 'precision' in st.notes:
+                base.append(st)
+            else:
+                s0 = st.clone(); s0.notes = dict(s0.notes); s0.notes['precision'] = None; base.append(s0)
+                s1 = st.clone(); s1.notes = dict(s1.notes); s1.notes['precision'] = mkint('precision'); base.append(s1)
+            for b in base:
+                P = b.notes['precision']
+                shown = ln if P is None else z3.If(ULT(P, ln), P, ln)
+                for wv in (None, mkint('width')):
+                    s2 = b.clone()
+                    s2.notes = dict(s2.notes)
+                    s2.notes['written'] = s2.notes.get('written', []) + [Slice(sl.arr, sl.start, sl.start + shown)]
+                    s2.notes['padding'] = bv(0) if wv is None else z3.If(ULT(shown, wv), wv - shown, bv(0))
+                    s2.events.append('Formatter::pad (precision %s, width %s)' % (P, wv))
+                    outs.append((s2, 'ret', Enum('Ok', {0: UNIT})))
+                    s3 = s2.clone(); s3.events.append('pad -> Err'); outs.append((s3, 'ret', Enum('Err', {0: UNIT})))
+            return outs
         if re.match(r'Formatter::<.*>::write_str$', c):
             sl = args[1]
             st.notes = dict(st.notes)
